@@ -10,11 +10,59 @@ generated server dispatches on (C11), following the code that exists:
   * `server.rs::generate_methods` — the *separately written* `match` over the same two flags
     choosing the server-side generator, each emitting the arm literal `path`, a
     `tonic::server::<Kind>Service<Req>` impl and one `grpc.<call>(method, req)`;
-  * `server.rs::generate_named` — `SERVICE_NAME` and `NamedService::NAME`.
-Type names and identifiers are opaque byte strings; token emission itself is compared by the
-correspondence run, not modelled.
+  * `server.rs::generate_named` — `SERVICE_NAME` and `NamedService::NAME`;
+  * `Method::request_response_name(proto_path, compile_well_known_types)` — the one function
+    every generator (client methods, server trait methods, server `*Service` impls) asks for the
+    Rust paths of the request and response message types: `prost.rs` (`convert_type`),
+    `manual.rs` (the path as given), or a user's own implementation;
+  * `code_gen.rs::CodeGenBuilder::generate_client` / `generate_server` — hand the builder's
+    `emit_package`, `compile_well_known_types` and the caller's `proto_path` to both sides.
+Identifiers are opaque byte strings; token emission itself is compared by the correspondence
+run, not modelled.
 -/
 namespace Codegen
+
+/-- `"::"` -/
+def colons : Bytes := [58, 58]
+/-- `"crate::"` -/
+def cratePrefix : Bytes := [99, 114, 97, 116, 101, 58, 58]
+/-- `"()"` -/
+def unitType : Bytes := [40, 41]
+/-- `".google.protobuf"` -/
+def googlePrefix : Bytes := [46, 103, 111, 111, 103, 108, 101, 46, 112, 114, 111, 116, 111, 98, 117, 102]
+/-- `"Wkt"` -/
+def wktSuffix : Bytes := [87, 107, 116]
+/-- `"super"` -/
+def superPath : Bytes := [115, 117, 112, 101, 114]
+
+/-- Where a method's message type name comes from (`Method::request_response_name`). -/
+inductive TypeName
+  /-- `manual.rs`: `syn::parse_str::<syn::Path>(&self.input_type)` — the path as given, both
+  arguments ignored -/
+  | fixed (rust : Bytes)
+  /-- a user-written `tonic_build::Method` whose answer depends on both arguments (the harness's
+  own: `<proto_path>::<base>` with `Wkt` appended when `compile_well_known_types`) -/
+  | echo (base : Bytes)
+  /-- `prost.rs::TonicBuildMethod`: prost-build's `input_proto_type` (fully qualified proto
+  name, leading dot) and `input_type` (Rust path relative to the package's module, or an
+  absolute / extern path, or a built-in such as `()`) -/
+  | prost (protoType rustType : Bytes)
+deriving DecidableEq, Repr
+
+/-- `prost.rs::is_google_type` -/
+def isGoogleType (protoType : Bytes) : Bool := googlePrefix.isPrefixOf protoType
+
+/-- `prost.rs::NON_PATH_TYPE_ALLOWLIST` -/
+def nonPathTypeAllowlist : List Bytes := [unitType]
+
+/-- `request_response_name` for one of the two types (`convert_type` in `prost.rs`). -/
+def TypeName.resolve (protoPath : Bytes) (compileWkt : Bool) : TypeName → Bytes
+  | .fixed r => r
+  | .echo b => protoPath ++ colons ++ b ++ (if compileWkt then wktSuffix else [])
+  | .prost pt rt =>
+    if (isGoogleType pt && !compileWkt) || colons.isPrefixOf rt || nonPathTypeAllowlist.contains rt then rt
+    else if cratePrefix.isPrefixOf rt then rt
+    else protoPath ++ colons ++ rt
 
 /-- `tonic_build::Method` as far as the generators read it. -/
 structure Method where
@@ -24,9 +72,9 @@ structure Method where
   ident : Bytes
   clientStreaming : Bool
   serverStreaming : Bool
-  /-- `request_response_name()` -/
-  input : Bytes
-  output : Bytes
+  /-- what `request_response_name()` works from -/
+  input : TypeName
+  output : TypeName
 deriving DecidableEq, Repr
 
 /-- `tonic_build::Service` as far as the generators read it. -/
@@ -39,12 +87,21 @@ structure Service where
   methods : List Method
 deriving DecidableEq, Repr
 
-/-- Builder options that reach the two string functions.  (`use_arc_self`,
+/-- `CodeGenBuilder`'s options that reach the string functions and the type names, plus the
+`proto_path` argument of `generate_client` / `generate_server`.  (`use_arc_self`,
 `generate_default_stubs`, `build_transport`, attributes and comments change other tokens
 only; the correspondence run varies them.) -/
 structure Opts where
   emitPackage : Bool
+  compileWkt : Bool := false
+  protoPath : Bytes := superPath
 deriving DecidableEq, Repr
+
+/-- `method.request_response_name(proto_path, compile_well_known_types)` as
+`client.rs::generate_internal` and `server.rs::generate_internal` call it: both are handed
+`self.compile_well_known_types` and the same `proto_path` by `CodeGenBuilder`. -/
+def Method.types (m : Method) (o : Opts) : Bytes × Bytes :=
+  (m.input.resolve o.protoPath o.compileWkt, m.output.resolve o.protoPath o.compileWkt)
 
 /-- Which `tonic::client::Grpc` / `tonic::server::Grpc` entry point a method goes through. -/
 inductive Call | unary | serverStreaming | clientStreaming | streaming
@@ -81,7 +138,7 @@ deriving DecidableEq, Repr
 /-- `client.rs`: `generate_unary` … `generate_streaming`, selected by `generate_methods`. -/
 def clientMethod (s : Service) (o : Opts) (m : Method) : ClientCall :=
   let base (c : Call) (rq rs : Bool) : ClientCall :=
-    ⟨m.name, formatMethodPath s m o, formatServiceName s o, m.ident, c, rq, rs, m.input, m.output⟩
+    ⟨m.name, formatMethodPath s m o, formatServiceName s o, m.ident, c, rq, rs, (m.types o).1, (m.types o).2⟩
   match m.clientStreaming, m.serverStreaming with
   | false, false => base .unary false false
   | false, true => base .serverStreaming false true
@@ -107,12 +164,15 @@ structure ServerArm where
   resp : Bytes
   /-- the trait method the arm forwards to: `<T as Trait>::fn` -/
   fn : Bytes
+  /-- `generate_trait_methods`: the message types in the signature of that trait method -/
+  traitReq : Bytes
+  traitResp : Bytes
 deriving DecidableEq, Repr
 
 /-- `server.rs`: `generate_unary` … `generate_streaming`, selected by `generate_methods`. -/
 def serverMethod (s : Service) (o : Opts) (m : Method) : ServerArm :=
   let base (c : Call) (t : SvcTrait) (rq rs : Bool) : ServerArm :=
-    ⟨formatMethodPath s m o, c, t, rq, rs, m.input, m.output, m.name⟩
+    ⟨formatMethodPath s m o, c, t, rq, rs, (m.types o).1, (m.types o).2, m.name, (m.types o).1, (m.types o).2⟩
   match m.clientStreaming, m.serverStreaming with
   | false, false => base .unary .unaryService false false
   | false, true => base .serverStreaming .serverStreamingService false true
